@@ -77,10 +77,10 @@ Proof.
     destruct Hin as [Hin _]. apply in_colidx in Hin. apply vlink_ext; tauto.
   - unfold xlinks. change (nx g') with (nx g). change (ny g') with (ny g). apply flat_map_ext_in. intros j Hj. apply in_seq in Hj.
     apply flat_map_ext_in. intros i Hi. apply in_seq in Hi.
-    rewrite !(has_ext g s ES) by lia. unfold xlink. rewrite !(height_ext g s ES) by lia. reflexivity.
+    rewrite !(has_ext g s ES) by lia. unfold xlink. rewrite !(height_ext g s ES), !(zc_ext g s ES) by lia. reflexivity.
   - unfold ylinks. change (nx g') with (nx g). change (ny g') with (ny g). apply flat_map_ext_in. intros i Hi. apply in_seq in Hi.
     apply flat_map_ext_in. intros j Hj. apply in_seq in Hj.
-    rewrite !(has_ext g s ES) by lia. unfold ylink. rewrite !(height_ext g s ES) by lia. reflexivity.
+    rewrite !(has_ext g s ES) by lia. unfold ylink. rewrite !(height_ext g s ES), !(zc_ext g s ES) by lia. reflexivity.
 Qed.
 End ExtSame.
 
